@@ -86,6 +86,12 @@ func writeAliasFacts(root *pkgInfo, repo, outPath string) {
 	fmt.Fprintf(&b, "/-- lazyproto (*Decoder).Decode clones the input when the mode is DecoderModeSafe -/\ndef lazyDecoderClonesInSafeMode : Bool := %s\n", leanB(methodClones))
 	fmt.Fprintf(&b, "/-- lazyproto.Decode (package level) always decodes a clone of the input -/\ndef lazyDecodeFuncClones : Bool := %s\n\n", leanB(fnClones))
 	fmt.Printf("fact F12 lazyproto Decoder.Decode clones-in-safe-mode=%v, lazyproto.Decode clones=%v\n", methodClones, fnClones)
+	// where a decoder's mode comes from: NewDecoder builds a new Decoder (zero mode = safe), only SetMode writes it
+	fresh, fields, writers := newDecoderFacts(root)
+	fmt.Fprintf(&b, "/-- decoder.go NewDecoder: the body is `return &Decoder{…}` — a newly constructed value, nothing recycled -/\ndef newDecoderIsFreshLiteral : Bool := %s\n", leanB(fresh))
+	fmt.Fprintf(&b, "/-- the fields that literal sets (every other field, `mode` included, has its zero value: DecoderModeSafe) -/\ndef newDecoderLiteralFields : List String := %s\n", leanStrList(fields))
+	fmt.Fprintf(&b, "/-- the functions of package csproto that assign the `mode` field of a Decoder -/\ndef decoderModeWriters : List String := %s\n\n", leanStrList(writers))
+	fmt.Printf("fact F12 NewDecoder fresh-literal=%v fields=%v, mode written by %v\n", fresh, fields, writers)
 	b.WriteString("end Csproto.Generated\n")
 	writeIfChanged(outPath, []byte(b.String()))
 }
@@ -94,4 +100,65 @@ func nodeString(n ast.Node) string {
 	var sb strings.Builder
 	printer.Fprint(&sb, token.NewFileSet(), n)
 	return sb.String()
+}
+
+// newDecoderFacts: NewDecoder's body is the single statement `return &Decoder{k: v, …}` (fresh), the keys of
+// that literal, and every function of the package that assigns to a `.mode` selector.
+func newDecoderFacts(root *pkgInfo) (fresh bool, fields []string, writers []string) {
+	fields, writers = []string{}, []string{}
+	fd := root.funcDecl("NewDecoder")
+	if fd == nil {
+		fmt.Println("missing function NewDecoder")
+		os.Exit(1)
+	}
+	if len(fd.Body.List) == 1 {
+		if rs, ok := fd.Body.List[0].(*ast.ReturnStmt); ok && len(rs.Results) == 1 {
+			if ue, ok := rs.Results[0].(*ast.UnaryExpr); ok && ue.Op == token.AND {
+				if cl, ok := ue.X.(*ast.CompositeLit); ok && exprString(cl.Type) == "Decoder" {
+					fresh = true
+					for _, el := range cl.Elts {
+						kv, ok := el.(*ast.KeyValueExpr)
+						if !ok {
+							fresh = false // positional literal: which field gets what is not visible here
+							continue
+						}
+						fields = append(fields, exprString(kv.Key))
+					}
+				}
+			}
+		}
+	}
+	for _, f := range root.files {
+		for _, d := range f.Decls {
+			fn, ok := d.(*ast.FuncDecl)
+			if !ok || fn.Body == nil {
+				continue
+			}
+			writes := false
+			ast.Inspect(fn.Body, func(n ast.Node) bool {
+				switch x := n.(type) {
+				case *ast.AssignStmt:
+					for _, l := range x.Lhs {
+						if sel, ok := l.(*ast.SelectorExpr); ok && sel.Sel.Name == "mode" {
+							writes = true
+						}
+					}
+				case *ast.CompositeLit:
+					// a Decoder literal that sets mode explicitly
+					if exprString(x.Type) == "Decoder" {
+						for _, el := range x.Elts {
+							if kv, ok := el.(*ast.KeyValueExpr); ok && exprString(kv.Key) == "mode" {
+								writes = true
+							}
+						}
+					}
+				}
+				return true
+			})
+			if writes {
+				writers = append(writers, fn.Name.Name)
+			}
+		}
+	}
+	return
 }
